@@ -5,11 +5,11 @@ go 1.24
 require (
 	github.com/basecomplextech/baselibrary v0.0.0-20250218120829-9ca66e53fd5f
 	github.com/basecomplextech/spec v0.0.0
+	github.com/pierrec/lz4/v4 v4.1.21
 )
 
 require (
 	github.com/mattn/go-isatty v0.0.20 // indirect
-	github.com/pierrec/lz4/v4 v4.1.21 // indirect
 	golang.org/x/sys v0.22.0 // indirect
 	gopkg.in/natefinch/lumberjack.v2 v2.2.1 // indirect
 	gopkg.in/yaml.v3 v3.0.1 // indirect
